@@ -1,4 +1,160 @@
+/-
+  C04 — cmdline blocks match every listed command with anti-evasion tokens interleaved.
+
+  Model: `Crs.Asm.regexpStr`, `computeSuffix`, `interleave`, `regexpChar` (regex/processors/cmdline.go) with the
+  three configured patterns of the block's shell as parameters (configuration/configuration.go loads them;
+  an absent or unreadable file gives three empty patterns).
+  The theorems give the exact text a command word is turned into; that this text denotes
+  `c₁·E·c₂·…·cₙ[·E·S]` follows from the engine's concatenation law and is checked on the real engine by the
+  membership oracle (variants drawn from the configured patterns' own syntax trees).
+-/
 import Crs.Assemble
+import CrsProofs.Lines
 namespace Crs.Props
-theorem C04_placeholder : True := trivial
+open Crs Crs.Asm Crs.Passes
+
+/-- **C04 (interleaving).** The characters of the word, each written by `regexpChar` (`.` and `-` escaped, a space
+    as `\s+`), with the evasion pattern between any two adjacent characters — and nowhere else. -/
+theorem C04_interleave (ev : Bytes) (w : Bytes) : interleave ev w = ev.intercalate (w.map regexpChar) := by
+  induction w with
+  | nil => simp [interleave, List.intercalate]
+  | cons c t ih =>
+    cases t with
+    | nil => simp [interleave, List.intercalate]
+    | cons d rest =>
+      rw [interleave, ih]
+      simp [List.intercalate, List.intersperse]
+
+/-- with an empty evasion pattern (missing, unreadable or empty toolchain.yaml) nothing is inserted -/
+theorem C04_empty_config (w : Bytes) : interleave [] w = (w.map regexpChar).flatten := by
+  induction w with
+  | nil => simp [interleave]
+  | cons c t ih =>
+    cases t with
+    | nil => simp [interleave]
+    | cons d rest => rw [interleave, ih]; simp
+
+theorem C04_regexpChar (c : Char) :
+    regexpChar c = if c = '.' then b!"\\." else if c = '-' then b!"\\-" else if c = ' ' then b!"\\s+" else [c] := by
+  unfold regexpChar; simp
+
+/-- a leading `'` passes the rest of the line through untouched -/
+theorem C04_verbatim (p : Patterns) (rest : Bytes) : regexpStr p ('\'' :: rest) = rest := rfl
+
+/-- is the last character of `stem ++ [m]` escaped, i.e. does `stem` end in an odd run of backslashes -/
+def endsEscaped (stem : Bytes) : Bool := isEscaped (stem ++ ['x']) stem.length
+
+private theorem isEscaped_snoc (stem : Bytes) (m : Char) : isEscaped (stem ++ [m]) ((stem ++ [m]).length - 1) = endsEscaped stem := by
+  unfold endsEscaped isEscaped
+  simp
+
+/-- **C04 (suffix markers).** A word `stem@` / `stem~` whose marker is not escaped becomes the interleaved stem
+    followed by evasion pattern and (no-space) suffix pattern — or just the interleaved stem when that suffix
+    pattern is empty. -/
+theorem C04_marker (p : Patterns) (stem : Bytes) (m : Char) (hm : m = '@' ∨ m = '~') (hne : stem ≠ [])
+    (hq : stem.head? ≠ some '\'') (hesc : endsEscaped stem = false) :
+    regexpStr p (stem ++ [m]) =
+      interleave p.evasion stem ++
+        (if (if m = '@' then p.suffix else p.noSpaceSuffix).isEmpty then []
+         else p.evasion ++ (if m = '@' then p.suffix else p.noSpaceSuffix)) := by
+  obtain ⟨c, cs, rfl⟩ : ∃ c cs, stem = c :: cs := by
+    cases stem with
+    | nil => exact absurd rfl hne
+    | cons c cs => exact ⟨c, cs, rfl⟩
+  have hc : c ≠ '\'' := by simpa using hq
+  have hlen : ¬ ((c :: cs) ++ [m]).length < 2 := by simp
+  unfold regexpStr
+  have hshape : (c :: cs) ++ [m] = c :: (cs ++ [m]) := rfl
+  rw [hshape]
+  split
+  · rename_i rest heq
+    simp only [List.cons.injEq] at heq
+    exact absurd heq.1 hc
+  · simp only
+    have hcs : computeSuffix p (c :: (cs ++ [m])) = (c :: cs, if m = '@' then p.suffix else p.noSpaceSuffix) := by
+      unfold computeSuffix
+      rw [← hshape]
+      simp only [hlen, if_false]
+      rw [isEscaped_snoc, hesc]
+      simp only [Bool.not_false, if_true, List.getLast?_append, List.getLast?_singleton, Option.some_or, List.dropLast_concat]
+      rcases hm with rfl | rfl <;> simp
+    rw [hcs]
+
+/-- **C04 (escaped marker).** `stem\@` / `stem\~` keep the character: the backslash is dropped, nothing is appended. -/
+theorem C04_escaped_marker (p : Patterns) (stem : Bytes) (m : Char) (hq : (stem ++ ['\\', m]).head? ≠ some '\'')
+    (hesc : endsEscaped stem = false) :
+    regexpStr p (stem ++ ['\\', m]) = interleave p.evasion (stem ++ [m]) := by
+  unfold regexpStr
+  split
+  · rename_i rest heq
+    rw [heq] at hq; simp at hq
+  · simp only
+    have hcs : computeSuffix p (stem ++ ['\\', m]) = (stem ++ [m], []) := by
+      unfold computeSuffix
+      have hlen : ¬ (stem ++ ['\\', m]).length < 2 := by simp
+      simp only [hlen, if_false]
+      have hE : isEscaped (stem ++ ['\\', m]) ((stem ++ ['\\', m]).length - 1) = true := by
+        have h1 : stem ++ ['\\', m] = (stem ++ ['\\']) ++ [m] := by simp
+        rw [h1, isEscaped_snoc]
+        -- one more backslash flips the parity
+        unfold endsEscaped isEscaped at hesc ⊢
+        simp only [List.length_append, List.length_singleton, List.take_left', List.append_assoc] at hesc ⊢
+        have e1 : List.take (stem.length + 1) (stem ++ (['\\'] ++ ['x'])) = stem ++ ['\\'] := by
+          rw [← List.append_assoc]
+          have : stem.length + 1 = (stem ++ ['\\']).length := by simp
+          rw [this]; exact List.take_left' rfl
+        have e0 : List.take stem.length (stem ++ ['x']) = stem := List.take_left' rfl
+        rw [e1, List.reverse_append]
+        simp only [List.reverse_singleton, List.singleton_append, List.takeWhile, beq_self_eq_true, List.length_cons]
+        rcases Nat.mod_two_eq_zero_or_one ((List.takeWhile (fun x => x == '\\') stem.reverse).length) with h | h
+        · have : ((List.takeWhile (fun x => x == '\\') stem.reverse).length + 1) % 2 = 1 := by omega
+          simp [this]
+        · rw [h] at hesc; simp at hesc
+      rw [hE]
+      simp only [Bool.not_true, Bool.false_eq_true, if_false]
+      have t1 : List.take ((stem ++ ['\\', m]).length - 2) (stem ++ ['\\', m]) = stem := by
+        have : (stem ++ ['\\', m]).length - 2 = stem.length := by simp
+        rw [this]; exact List.take_left' rfl
+      have t2 : List.drop ((stem ++ ['\\', m]).length - 1) (stem ++ ['\\', m]) = [m] := by
+        have h1 : stem ++ ['\\', m] = (stem ++ ['\\']) ++ [m] := by simp
+        have : (stem ++ ['\\', m]).length - 1 = (stem ++ ['\\']).length := by simp
+        rw [this, h1]; exact List.drop_left' rfl
+      rw [t1, t2]
+    rw [hcs]
+    simp
+
+/-- **C04 (plain word).** A word that neither starts with `'` nor ends in a marker is just interleaved. -/
+theorem C04_plain_word (p : Patterns) (w : Bytes) (hq : w.head? ≠ some '\'')
+    (hlast : ∀ c, w.getLast? = some c → c ≠ '@' ∧ c ≠ '~') (hesc : isEscaped w (w.length - 1) = false) :
+    regexpStr p w = interleave p.evasion w := by
+  unfold regexpStr
+  split
+  · simp at hq
+  · simp only
+    have hcs : computeSuffix p w = (w, []) := by
+      unfold computeSuffix
+      split
+      · rfl
+      · rw [hesc]
+        simp only [Bool.not_false, if_true]
+        cases hl : w.getLast? with
+        | none => rfl
+        | some c =>
+          obtain ⟨h1, h2⟩ := hlast c hl
+          split
+          · rename_i heq; simp only [Option.some.injEq] at heq; exact absurd heq h1
+          · rename_i heq; simp only [Option.some.injEq] at heq; exact absurd heq h2
+          · rfl
+    rw [hcs]
+    simp
+
+/-- non-vacuity on the CRS-like unix patterns: `ls` interleaved, `cat@` with suffix, `a.b-c d` escaped -/
+example :
+    regexpStr ⟨"[x]*".toList, "S".toList, "N".toList⟩ "ls".toList = "l[x]*s".toList ∧
+    regexpStr ⟨"[x]*".toList, "S".toList, "N".toList⟩ "cat@".toList = "c[x]*a[x]*t[x]*S".toList ∧
+    regexpStr ⟨"[x]*".toList, "S".toList, "N".toList⟩ "py~".toList = "p[x]*y[x]*N".toList ∧
+    regexpStr ⟨"[x]*".toList, "S".toList, "N".toList⟩ "a\\@".toList = "a[x]*@".toList ∧
+    regexpStr ⟨[], [], []⟩ "a.b-c d@".toList = "a\\.b\\-c\\s+d".toList := by
+  decide
+
 end Crs.Props
